@@ -621,11 +621,12 @@ Lemma toy_compose_value :
           [("c", App HMul [Sym "g2"; Sym "m|3"])].
 Proof. vm_compute. reflexivity. Qed.
 
-(* (i) full equality is FALSE when a symbol of the model is not collected: an unused parameter x *)
+(* (i) full equality is FALSE when a symbol of the model is not collected.  Since parameters are
+   collected (repo commit 27f526d) the remaining uncollected place is `components`: a component
+   mentioning a symbol x that occurs nowhere else *)
 Definition toyU : model :=
-  Model (intensity toy) (amplitudes toy)
-        [(Sym "g", "(1+0j)"); (Sym "m|3", "0.98"); (Sym "x", "2.0")]
-        (kinematic_variables toy) (components toy).
+  Model (intensity toy) (amplitudes toy) (parameter_defaults toy) (kinematic_variables toy)
+        [("c", App HMul [Sym "g"; Sym "x"])].
 
 Lemma compose_uncollected_refuted :
   exists m r1 r2, wf_model z1 z2 m /\ wf_map r1 /\ r1 <> [] /\ r2 <> []
@@ -635,7 +636,7 @@ Proof.
   exists toyU, [("g", "x")], [("x", "y")]. split.
   { constructor; cbn; nodup_tac; cbn; auto. }
   split; [repeat constructor|]. split; [discriminate|]. split; [discriminate|].
-  intros E. apply (f_equal parameter_defaults) in E. vm_compute in E. discriminate E.
+  intros E. apply (f_equal components) in E. vm_compute in E. discriminate E.
 Qed.
 
 (* (ii) ... and when the first map merges two parameters and the second merges the result
